@@ -242,7 +242,7 @@ func (vt *v2T) scenC08() {
 	c := vt.build("c08", 0.8, docs)
 	var mit, apacheHdr v2Doc
 	for _, d := range docs {
-		if d.Key == "License/MIT/license.txt" {
+		if d.Key == "License/MIT/pristine.txt" {
 			mit = d
 		}
 		if d.Key == "Header/Apache-2.0/header.txt" {
